@@ -526,6 +526,94 @@ example :
                           ([67], .stream [([68], .str [4])] [9, 9])])
       = [.str [1], .str [2, 3], .str [4], .payload false [9, 9]] := by decide
 
+/-- Encrypting a non-empty string never yields the empty string (so the reader's "skip empty
+    strings" shortcut cannot hit an encrypted string). -/
+theorem encryptBytes_ne_nil (P : Prims) (m : Method) (key : Bytes) (objid genno : Nat) (iv b : Bytes)
+    (hm : m ≠ .identity) (hiv : iv.length = 16)
+    (h : encryptBytes P m key objid genno iv b = []) : b = [] := by
+  cases m with
+  | identity => exact absurd rfl hm
+  | rc4 =>
+    have := congrArg List.length h
+    simp only [encryptBytes, rc4Core_length, List.length_nil] at this
+    exact List.eq_nil_of_length_eq_zero this
+  | aes128 =>
+    have := congrArg List.length h
+    simp [encryptBytes, hiv] at this
+  | aes256 =>
+    have := congrArg List.length h
+    simp [encryptBytes, hiv] at this
+
+/-! ### call-order independence: strings at `getobj`, payload at `get_data()` -/
+
+/-- `getobj` followed by `get_data()` is the one-step model `getobj`: for every whole indirect
+    object (no stream nested inside another object). -/
+theorem getobj_two_phase (P : Prims) (h : Handler) (objid genno : Nat) (o : Obj)
+    (hw : wellFormed o = true) :
+    getData P h objid genno (getobjLazy P h .direct objid genno o) = getobj P h .direct objid genno o := by
+  cases o with
+  | str b => by_cases hb : b.isEmpty <;> simp [getobjLazy, getobj, decipherAll, getData, hb]
+  | atom a => rfl
+  | arr xs =>
+    simp only [wellFormed] at hw
+    simp only [getobjLazy, getobj]
+    rw [decipher_flat _ _ (decrypt P h objid genno) (.arr xs) hw]
+    simp [decipherAll, getData]
+  | dict kvs =>
+    simp only [wellFormed] at hw
+    simp only [getobjLazy, getobj]
+    rw [decipher_flat _ _ (decrypt P h objid genno) (.dict kvs) hw]
+    simp [decipherAll, getData]
+  | stream attrs raw =>
+    simp only [wellFormed] at hw
+    simp only [getobjLazy, getobj, decipherAll]
+    by_cases hx : attrsType attrs = some atomXRef
+    · simp [hx, getData]
+    · simp only [hx, if_false, getData, attrsType_decipherKVs]
+      rw [decipher_flat_kvs _ _ (decrypt P h objid genno) attrs hw]
+
+/-- **The strings of a stream dictionary are plaintext as soon as `getobj` returns** - before, and
+    independently of, any `get_data()`: what `getobj` hands out for an encrypted stream object is
+    the original dictionary with the payload still as stored. -/
+theorem C10_stream_dict_before_decode (P : Prims) (hP : PrimsOK P) (h : Handler) (m : Method) (key : Bytes)
+    (ivOf : Bytes → Bytes) (hm : Matches h m key ivOf) (hiv : ∀ b, (ivOf b).length = 16)
+    (objid genno : Nat) (attrs : List (Bytes × Obj)) (raw : Bytes)
+    (hflat : flatKVs attrs = true) (hx : attrsType attrs ≠ some atomXRef)
+    (skip : List (Bytes × Obj) → Bool) :
+    ∃ stored, getobjLazy P h .direct objid genno
+      (encryptAll (fun b => encryptBytes P m key objid genno (ivOf b) b) skip (.stream attrs raw))
+      = .stream attrs stored := by
+  refine ⟨if skip attrs then raw else encryptBytes P m key objid genno (ivOf raw) raw, ?_⟩
+  simp only [getobjLazy, encryptAll, hx, if_false, decipherAll, attrsType_encryptKVs]
+  have hk := decipher_encrypt_kvs (decrypt P h objid genno false) (fun _ r => r)
+    (fun b => encryptBytes P m key objid genno (ivOf b) b) (fun _ => true)
+    (fun b => C10_roundtrip_bytes P hP h m key ivOf hm objid genno b false (fun _ _ => rfl))
+    (by
+      intro b hb
+      by_cases hid : m = .identity
+      · subst hid; simpa [encryptBytes] using hb
+      · exact encryptBytes_ne_nil P m key objid genno (ivOf b) b hid (hiv b) hb)
+    (by intro a r; simp) attrs
+  -- the dictionary is flat, so how nested payloads would be treated is irrelevant on both sides
+  have hflat' : ∀ sk, encryptKVs (fun b => encryptBytes P m key objid genno (ivOf b) b) sk attrs
+      = encryptKVs (fun b => encryptBytes P m key objid genno (ivOf b) b) (fun _ => true) attrs := by
+    intro sk
+    exact encrypt_flat_kvs _ sk (fun _ => true) attrs hflat
+  rw [hflat' skip, hk]
+
+/-- Which calls happen when: `getobj` makes the string calls, `get_data()` the payload call, and
+    together they are exactly `expectedCalls` (as multisets: `filter p ++ filter (not p)`). -/
+theorem once_only_phases (o : Obj) :
+    (lazyCalls o).length + (dataCalls o).length = (expectedCalls o).length ∧
+    (∀ c ∈ lazyCalls o, c.isStr = true) ∧ (∀ c ∈ dataCalls o, c.isStr = false) := by
+  refine ⟨?_, ?_, ?_⟩
+  · unfold lazyCalls dataCalls
+    induction expectedCalls o with
+    | nil => rfl
+    | cons c cs ih => cases hc : c.isStr <;> simp [List.filter, hc] <;> omega
+  · intro c hc; simp [lazyCalls] at hc; exact hc.2
+  · intro c hc; simp [dataCalls] at hc; exact hc.2
+
 /-! ## permissions -/
 
 /-- print / modify / extract are bits 3 / 4 / 5 of P (values 4, 8, 16) of the stored value. -/
@@ -887,24 +975,6 @@ theorem C10_open (P : Prims) (hP : PrimsOK P) (cfg : Config) (pw : Passwords) (r
           buildCfm, getCfm, cfmName, lookup, hcf, nameAESV3] at ha' ⊢ <;>
         simp [ha', hcf, lookup]
     · simp [Config.method, lookup, hcf]
-
-/-- Encrypting a non-empty string never yields the empty string (so the reader's "skip empty
-    strings" shortcut cannot hit an encrypted string). -/
-theorem encryptBytes_ne_nil (P : Prims) (m : Method) (key : Bytes) (objid genno : Nat) (iv b : Bytes)
-    (hm : m ≠ .identity) (hiv : iv.length = 16)
-    (h : encryptBytes P m key objid genno iv b = []) : b = [] := by
-  cases m with
-  | identity => exact absurd rfl hm
-  | rc4 =>
-    have := congrArg List.length h
-    simp only [encryptBytes, rc4Core_length, List.length_nil] at this
-    exact List.eq_nil_of_length_eq_zero this
-  | aes128 =>
-    have := congrArg List.length h
-    simp [encryptBytes, hiv] at this
-  | aes256 =>
-    have := congrArg List.length h
-    simp [encryptBytes, hiv] at this
 
 /-- **Reachable AES-128 key lengths** (remark on `min(len(key)+9, 16)` in `decrypt_aes128`): every
     V4 document has a 16-byte file key, because `init_params` forces `length = 128`; the deviation
